@@ -548,12 +548,65 @@ def setup(rep, tier):
     rep.minimum('R17.2', 20)
     rep.minimum('R17.3', 20)
     rep.minimum('R17.4', 3)
+    rep.minimum('R17.6', 1)
     if tier == 'thorough':
         rep.minimum('R17.5', 1)
     rep.trusted.append('python port of log2_frac (celt/cwrs.c) used as the generator oracle for the pulse cache; exact integer recurrence for U')
 
 
+# ------------------------------------------------------------------ R17.6
+def r17_6(rep, prog):
+    """a Laplace encoder that clamps the magnitude to what the tail of the distribution can represent must
+    report the clamped value back: the store through the in/out `value` parameter depends (through the
+    definitions of the locals it reads) on the result of the clamp `IMIN(val - i, ndi_max - 1)`.  If it does not,
+    the caller keeps the unclamped value while the decoder reconstructs the clamped one, and the energy
+    predictors of encoder and decoder drift apart."""
+    from .. import decide
+    n = 0
+    for f in prog.functions_all:
+        if not f.file.endswith('laplace.c') or 'encode' not in f.name:
+            continue
+        outs = []
+        for x in f.all_nodes():
+            if x[0] == 'assign' and sx.kind(sx.strip(x[1])) == 'deref' and sx.kind(sx.strip(sx.strip(x[1])[1])) == 'param':
+                outs.append(x)
+        if not outs:
+            continue
+        rep.functions.add(f.name)
+        # locals assigned from a min(.,.) idiom
+        clamps = set()
+        for l in f.locals.values():
+            for lv, r in decide.find_assign(f, l['name']):
+                rr = sx.strip(r)
+                if sx.kind(rr) == 'cond':
+                    c = sx.strip(rr[1])
+                    if sx.kind(c) == 'bin' and c[1] in ('<', '<=', '>', '>='):
+                        clamps.add(l['id'])
+        for x in outs:
+            n += 1
+            seen, work = set(), [y[2] for y in sx.walk(x[2]) if sx.kind(y) == 'local']
+            while work:
+                lid = work.pop()
+                if lid in seen:
+                    continue
+                seen.add(lid)
+                nm = f.locals[lid]['name'] if lid in f.locals else None
+                for lv, r in (decide.find_assign(f, nm) if nm else []):
+                    work += [y[2] for y in sx.walk(r) if sx.kind(y) == 'local']
+            inst = '%s:%s reports the clamped value back to its caller' % (prog.config, f.name)
+            where = '%s:%s' % (f.file, sx.line(x))
+            if not clamps:
+                rep.unresolved('R17.6', inst + ': no clamp found')
+            elif seen & clamps:
+                rep.holds('R17.6', inst, where, '`%s` depends on the clamp result `%s`' % (sx.show(x)[:50], ', '.join(sorted(f.locals[c]['name'] for c in seen & clamps))))
+            else:
+                rep.violated('R17.6', inst, where, '`%s` does not depend on the clamp (%s): beyond the representable tail the caller keeps a value the decoder cannot reconstruct' % (
+                    sx.show(x)[:60], ', '.join(sorted(f.locals[c]['name'] for c in clamps))), key=f.name + ':writeback')
+    return n
+
+
 def check(rep, prog, tier):
+    r17_6(rep, prog)
     pt = PointsTo(prog)
     r17_1(rep, prog, pt)
     if 'CELT_PVQ_U_DATA' in prog.globals:
